@@ -47,12 +47,14 @@ def build_rows(market):
             days = days[:len(days) - max(market['shift'].values())]     # ... the others end earlier: equal row counts
         jm = market.get('jumps')
         back = None
+        njumps = 0
         for j, d in enumerate(days):
             o = price * (1 + rng.gauss(0, 0.012))
             if back is not None:
                 o, back = price * back, None            # yesterday's jump is undone at the next open
             c = o * (1 + rng.gauss(0.0003, 0.015))
-            if jm and j > 0 and rng.random() < jm['p']:
+            if jm and j > 0 and njumps < jm.get('max', 2) and rng.random() < jm['p']:
+                njumps += 1          # (a handful per file: magnitudes stay where floats still count whole shares)
                 # a crash or a spike within one session (a leveraged or short book can lose more than it has); half of them
                 # revert the next day
                 f = (1.0 - jm['size']) if rng.random() < 0.5 else 1.0 / (1.0 - jm['size'])
